@@ -18,8 +18,8 @@ VERIF = os.path.dirname(os.path.dirname(os.path.abspath(__file__)))
 REPO = os.environ.get("VERIF_REPO", "/repo")
 INCLUDE = os.path.join(REPO, "include")
 BUILD_ROOT = os.path.join(VERIF, "build")
-EVIDENCE_DIR = os.path.join(VERIF, "evidence")
-REPLAY_DIR = os.path.join(VERIF, "replays")
+EVIDENCE_DIR = os.environ.get("VERIF_EVIDENCE_DIR", os.path.join(VERIF, "evidence"))
+REPLAY_DIR = os.environ.get("VERIF_REPLAY_DIR", os.path.join(VERIF, "replays"))
 KNOWN_FINDINGS = os.path.join(VERIF, "known_findings.txt")
 NCPU = os.cpu_count() or 4
 
@@ -289,6 +289,7 @@ def finish(outcome):
     unknown = 0
     printed_known = set()
     seen_sigs = {}
+    outcome.violations.sort(key=lambda v: (len(v["detail"]), v["signature"]))
     for v in outcome.violations:
         sig = v["signature"]
         hit = [k for k in known if k[0] == outcome.prop and k[1] == sig]
@@ -299,7 +300,7 @@ def finish(outcome):
             continue
         n = seen_sigs.get(sig, 0)
         seen_sigs[sig] = n + 1
-        if n >= 2:      # at most two replay files per signature
+        if n >= 1 or unknown >= 12:      # one replay file per signature, at most 12 per run
             unknown += 1
             continue
         idx = 0
